@@ -1,0 +1,20 @@
+//go:build verif
+
+// Contracts for cmd/feedbastion, checked by /verif/govc (see /verif/DESIGN.md, C11).
+// This file contains no code: only structured //@ comments keyed by function.
+
+package main
+
+// The request body written for the bastion is "old 0\n", one base64 line per proof hash, a blank line, the checkpoint.
+//@ func (*bastionClient).Update
+//@   returns (out, err)
+//@   requires b != nil && b.httpClient != nil
+//@   modifies n_post, post_url, post_body, rd_buf, rdr_bytes
+//@   ensures[C11.wr] n_post == old(n_post) + 1 && post_url == b.url
+//@   ensures[C11.wr] str(post_body) == cat2("old 0\n" ++ encPre(rowOf(proof), offOf(proof), len(proof)), "\n" ++ str(newCP))
+//@   hint encPre_0(rowOf(proof), offOf(proof))
+//@   hint scat_unit("old 0\n")
+//@   hint#1 encPre_s(rowOf(proof), offOf(proof), $i + 1)
+//@   hint#1 scat_assoc("old 0\n", encPre(rowOf(proof), offOf(proof), $i), b64enc(str(proof[$i])) ++ "\n")
+//@   invariant#1 0 <= $i && $i <= len(proof) && body == "old 0\n" ++ encPre(rowOf(proof), offOf(proof), $i)
+//@   decreases#1 len(proof) - $i
